@@ -32,6 +32,23 @@ use vcommon::*;
 const VERIFICATION: &str = "1.2.840.10008.1.1";
 const CT_STORAGE: &str = "1.2.840.10008.5.1.4.1.1.2";
 const GUARD: Duration = Duration::from_secs(8);
+/// --life: traces start at the TCP connect (establishment PDUs included) for Trace_AssocLife
+static LIFE: std::sync::atomic::AtomicBool = std::sync::atomic::AtomicBool::new(false);
+fn life() -> bool {
+    LIFE.load(std::sync::atomic::Ordering::Relaxed)
+}
+fn life_kind(t: u8) -> &'static str {
+    match t {
+        1 => "AssocRQ",
+        2 => "AssocAC",
+        3 => "AssocRJ",
+        4 => "PData",
+        5 => "ReleaseRQ",
+        6 => "ReleaseRP",
+        7 => "Abort",
+        _ => "Other",
+    }
+}
 
 #[derive(Clone, Copy, Debug, PartialEq)]
 enum Call {
@@ -298,10 +315,10 @@ fn wire_to_trace(log: &[WireEvent], w: &mut Vec<serde_json::Value>, corrupt: boo
     for e in log {
         match e.what {
             "pdu" => {
-                if e.pdu_type <= 3 {
+                if e.pdu_type <= 3 && !life() {
                     continue; // establishment
                 }
-                let kind = pdu_kind(e.pdu_type);
+                let kind = if life() { life_kind(e.pdu_type) } else { pdu_kind(e.pdu_type) };
                 if corrupt && kind == "ReleaseRP" && !dropped_rp {
                     dropped_rp = true; // self-test: hide the release reply from the validator
                     continue;
@@ -322,7 +339,7 @@ fn wire_to_trace(log: &[WireEvent], w: &mut Vec<serde_json::Value>, corrupt: boo
                 n += 1;
             }
             "garbage" => {
-                w.push(json!({"ev": "pdu", "from": e.from, "kind": "Garbage", "len": e.len}));
+                w.push(json!({"ev": "pdu", "from": e.from, "kind": if life() { "Other" } else { "Garbage" }, "len": e.len}));
                 n += 1;
             }
             _ => {}
@@ -514,7 +531,7 @@ fn run_lib_case(sched: &[(usize, Call)], w: &mut Vec<serde_json::Value>, corrupt
     if dbg { eprintln!("joined at {:?}", tcase.elapsed()); }
     let log = proxy.finish();
     if dbg { eprintln!("proxy done at {:?}", tcase.elapsed()); }
-    w.push(json!({"ev": "reset", "api": if is_async { "async" } else { "sync" }, "sched": sched.iter().map(|(p, c)| format!("{}:{}", if *p == 0 { "rq" } else { "ac" }, call_name(*c))).collect::<Vec<_>>()}));
+    w.push(json!({"ev": "reset", "scripted": [], "api": if is_async { "async" } else { "sync" }, "sched": sched.iter().map(|(p, c)| format!("{}:{}", if *p == 0 { "rq" } else { "ac" }, call_name(*c))).collect::<Vec<_>>()}));
     let (n, kinds) = wire_to_trace(&log, w, corrupt);
     *interleavings = kinds.join(",");
     let api = |r: &Vec<(Call, String)>| r.iter().enumerate().map(|(i, (c, o))| json!({"seq": i, "call": call_name(*c), "ret": o})).collect::<Vec<_>>();
@@ -815,7 +832,7 @@ fn run_scp(args: &std::collections::HashMap<String, String>) {
         api.push(json!({"seq": nsend, "call": if late > 0 { "scripted-release-then-data" } else { call_name(term) }, "ret": ret}));
         let log = proxy.finish();
         let mut ev = Vec::new();
-        ev.push(json!({"ev": "reset", "raw": late > 0, "acceptor": if nb { "storescp --non-blocking" } else { "storescp" },
+        ev.push(json!({"ev": "reset", "raw": late > 0, "scripted": if late > 0 { vec!["rq"] } else { vec![] }, "acceptor": if nb { "storescp --non-blocking" } else { "storescp" },
                        "sched": format!("send*{nsend},{}{}", call_name(term), match late { 1 => ",keep-open,c-echo", 2 => ",keep-open,c-store", _ => "" })}));
         let (k, kinds) = wire_to_trace(&log, &mut ev, false);
         if kinds.iter().any(|s| s == "ac:ReleaseRP") {
@@ -838,12 +855,19 @@ fn run_scp(args: &std::collections::HashMap<String, String>) {
     rep.print();
 }
 
+include!("../release_life.rs");
+
 fn main() {
     quiet_panics();
     let args = args_map();
+    if args.contains_key("life") {
+        LIFE.store(true, std::sync::atomic::Ordering::Relaxed);
+    }
     match args.get("_0").map(|s| s.as_str()) {
         Some("lib") => run_lib(&args),
         Some("scp") => run_scp(&args),
+        Some("est") => run_est(&args),
+        Some("tools") => run_tools(&args),
         _ => {
             eprintln!("usage: drv_release lib|scp ...");
             std::process::exit(2);
